@@ -169,6 +169,19 @@ CHECKS["C16"] = dict(
          "expects; vendor documents are not in the sandbox); asyncio's FIFO ready queue.",
     design="4/C16")
 
+CHECKS["C15"] = dict(
+    technique="schedule exploration by discrete-event simulation of the real asyncio drivers on a virtual-time loop; "
+              "history invariant over the gateway's ordered wire log",
+    text="8 000 (quick) / 120 000 (thorough) generated scenarios per run for Tridonic HID, hasseb HID, LUBA and SCI: 2-4 "
+         "concurrent callers (single sends, run_sequence with sleep/progress items, manual transactions) with unique frames, "
+         "start times, cancellation times, scripted exceptions and gateway latencies. Oracle over the wire log: frames of one "
+         "unit contiguous and in order, every device-type command directly preceded by its ENABLE DEVICE TYPE frame, every "
+         "caller ends, transaction lock and gateway-level locks free, raised/cancelled sequences not left suspended, no "
+         "unhandled exception in the loop.",
+    note="Trusted: gateway conversation models; asyncio's FIFO ready queue (the harness places external events between "
+         "settled loop states, it does not permute the ready queue).",
+    design="4/C15")
+
 NOT_BUILT_REASON = "check not built yet in this round (planned, see DESIGN.md section 4); not claimed until it is registered"
 
 
